@@ -95,7 +95,8 @@ impl StallGuardEngine {
 
     fn frame(c: &SrtlaConnection) -> impl PartialEq + use<> {
         ((c.connected, c.last_received, c.last_sent, c.window, c.in_flight_packets, c.packet_log.len(),
-          c.congestion.nak_count, c.congestion.nak_burst_count, c.last_ack_or_rtt_sample_ms),
+          c.congestion.nak_count, c.congestion.nak_burst_count, c.last_ack_or_rtt_sample_ms,
+          c.congestion.fast_recovery_mode),
          (c.phase, c.reconnection.last_reconnect_attempt_ms, c.reconnection.reconnect_failure_count,
           c.reconnection.connection_established_ms, c.verif_view().last_keepalive_sent,
           c.batch_sender.queued_count()))
@@ -169,6 +170,11 @@ impl Engine for StallGuardEngine {
             let latched_since = if getb(pre, "latched") { now - 7_000 - self.pick(1000) } else { 0 };
             let rec_since = age(geti(pre, "rec")).unwrap_or(0);
             c.verif_set_stall(latched_since, rec_since, getb(pre, "pulled"), 0);
+            c.stall_gated = getb(pre, "gated");
+            // accounting state a decision must leave alone, at arbitrary values
+            c.window = [1000, 1500, 5000, 20_000, 45_000, 60_000][self.pick(6) as usize];
+            c.congestion.nak_count = self.pick(7) as i32;
+            c.congestion.fast_recovery_mode = self.pick(2) == 0;
             let held = getb(ev, "held");
             let other_healthy = if held { getb(ev, "other") } else { self.pick(2) == 0 };
             self.other_healthy = other_healthy;
